@@ -17,6 +17,7 @@ import TantivyModel.Proofs.DocSet.BufferedUnionScore
 import TantivyModel.Proofs.DocSet.DisjunctionScore
 import TantivyModel.Proofs.DocSet.ScoreMoves
 import TantivyModel.Proofs.DocSet.BufferedUnionScoreDanger
+import TantivyModel.Proofs.DocSet.ScoreCompose
 import TantivyModel.Model.DocSet.Tree
 /-!
 # C13 — every DocSet is one sorted sequence under any mix of advance and seek
@@ -460,7 +461,7 @@ theorem C13_intersection_children_aligned (hA : Lawful A VA WA) (s : Inter.State
 /-- score of the intersection (SumCombiner): with `g c` the score function of child `c`, the score at
 the current document `d` is `Σ_children g c d`, for every valid state however it was reached -/
 theorem C13_intersection_score_value (hA : Lawful A VA WA) (fx : Fix) (g : σ → Nat → Nat)
-    (hg : ∀ c, (A.score c).1 = g c (A.doc c)) (s : Inter.State σ) (l : List Nat)
+    (hg : ∀ {c l}, VA c l → l ≠ [] → (A.score c).1 = g c (A.doc c)) (s : Inter.State σ) (l : List Nat)
     (hV : Inter.V VA WA s l) (hne : l ≠ []) :
     ((Inter.ds A fx).score s).1 = (((Inter.toList s).map g).map (fun f => f (Spec.doc l))).sum :=
   Inter.score_value hA fx g hg hV hne
@@ -478,7 +479,7 @@ theorem C13_intersection_ghost_preserved {α : Type} (g : σ → α) (hG : Inter
 /-- score path independence of the intersection: two valid states on the same document, over children
 with the same score functions, score the same — whatever calls brought them there -/
 theorem C13_intersection_score_path_independent (hA : Lawful A VA WA) (fx : Fix) (g : σ → Nat → Nat)
-    (hg : ∀ c, (A.score c).1 = g c (A.doc c)) (s1 s2 : Inter.State σ) (l1 l2 : List Nat)
+    (hg : ∀ {c l}, VA c l → l ≠ [] → (A.score c).1 = g c (A.doc c)) (s1 s2 : Inter.State σ) (l1 l2 : List Nat)
     (hV1 : Inter.V VA WA s1 l1) (hV2 : Inter.V VA WA s2 l2) (h1 : l1 ≠ []) (h2 : l2 ≠ [])
     (hdoc : Spec.doc l1 = Spec.doc l2)
     (hghost : (Inter.toList s1).map g = (Inter.toList s2).map g) :
@@ -493,7 +494,7 @@ clear everything, at any horizon `H`): the union sits on the document the specif
 on, and `score()` there is the sum of `g c d` over the children containing `d`.
 `fill_buffer` is excluded: for it the statement is false (C13_union_fill_buffer_*_counterexample). -/
 theorem C13_union_score_value (hA : Lawful A VA WA) (hscore : ∀ {c l}, VA c l → VA (A.score c).2 l)
-    (g : σ → Nat → Nat) (hG : Inter.Ghost A g) (hg : ∀ c, (A.score c).1 = g c (A.doc c))
+    (g : σ → Nat → Nat) (hG : Inter.Ghost A g) (hg : ∀ {c l}, VA c l → l ≠ [] → (A.score c).1 = g c (A.doc c))
     (H : Nat) (hH : 64 ∣ H) (hH0 : 0 < H) (fx : Fix) (cs : List σ) (ls : List (List Nat)) (U : List Nat)
     (hcs : All2 VA cs ls) (hU : SimpleUnion.IsUnion U ls) (ms : List BUnion.Move)
     (hl : BUnion.legalMoves U ms) :
@@ -507,7 +508,7 @@ theorem C13_union_score_value (hA : Lawful A VA WA) (hscore : ∀ {c l}, VA c l 
 that end on the same document end with the same score -/
 theorem C13_union_score_path_independent (hA : Lawful A VA WA)
     (hscore : ∀ {c l}, VA c l → VA (A.score c).2 l)
-    (g : σ → Nat → Nat) (hG : Inter.Ghost A g) (hg : ∀ c, (A.score c).1 = g c (A.doc c))
+    (g : σ → Nat → Nat) (hG : Inter.Ghost A g) (hg : ∀ {c l}, VA c l → l ≠ [] → (A.score c).1 = g c (A.doc c))
     (H : Nat) (hH : 64 ∣ H) (hH0 : 0 < H) (fx : Fix) (cs : List σ) (ls : List (List Nat)) (U : List Nat)
     (hcs : All2 VA cs ls) (hU : SimpleUnion.IsUnion U ls) (ms1 ms2 : List BUnion.Move)
     (hl1 : BUnion.legalMoves U ms1) (hl2 : BUnion.legalMoves U ms2)
@@ -522,7 +523,7 @@ theorem C13_union_score_path_independent (hA : Lawful A VA WA)
 /-- … at the extracted horizon -/
 theorem C13_union_score_path_independent_extracted (hA : Lawful A VA WA)
     (hscore : ∀ {c l}, VA c l → VA (A.score c).2 l)
-    (g : σ → Nat → Nat) (hG : Inter.Ghost A g) (hg : ∀ c, (A.score c).1 = g c (A.doc c))
+    (g : σ → Nat → Nat) (hG : Inter.Ghost A g) (hg : ∀ {c l}, VA c l → l ≠ [] → (A.score c).1 = g c (A.doc c))
     (fx : Fix) (cs : List σ) (ls : List (List Nat)) (U : List Nat)
     (hcs : All2 VA cs ls) (hU : SimpleUnion.IsUnion U ls) (ms1 ms2 : List BUnion.Move)
     (hl1 : BUnion.legalMoves U ms1) (hl2 : BUnion.legalMoves U ms2)
@@ -538,7 +539,7 @@ of `advance` and `seek` the disjunction sits on the specification cursor's docum
 there is the sum of the score functions of the children containing it (the running combiner is reset
 per candidate and updated once per popped scorer). -/
 theorem C13_disjunction_score_value (hA : Lawful A VA WA) (hscore : ∀ {c l}, VA c l → VA (A.score c).2 l)
-    (g : σ → Nat → Nat) (hG : Inter.Ghost A g) (hg : ∀ c, (A.score c).1 = g c (A.doc c))
+    (g : σ → Nat → Nat) (hG : Inter.Ghost A g) (hg : ∀ {c l}, VA c l → l ≠ [] → (A.score c).1 = g c (A.doc c))
     (k : Nat) (hk : 1 ≤ k) (cs : List σ) (ls : List (List Nat)) (L : List Nat) (hcs : All2 VA cs ls)
     (hL : Sorted L) (hmem : ∀ x, x ∈ L ↔ k ≤ Disj.cnt x ls) (ms : List Disj.Move)
     (hl : Disj.legalMoves L ms) :
@@ -551,7 +552,7 @@ theorem C13_disjunction_score_value (hA : Lawful A VA WA) (hscore : ∀ {c l}, V
 /-- score path independence of Disjunction -/
 theorem C13_disjunction_score_path_independent (hA : Lawful A VA WA)
     (hscore : ∀ {c l}, VA c l → VA (A.score c).2 l)
-    (g : σ → Nat → Nat) (hG : Inter.Ghost A g) (hg : ∀ c, (A.score c).1 = g c (A.doc c))
+    (g : σ → Nat → Nat) (hG : Inter.Ghost A g) (hg : ∀ {c l}, VA c l → l ≠ [] → (A.score c).1 = g c (A.doc c))
     (k : Nat) (hk : 1 ≤ k) (cs : List σ) (ls : List (List Nat)) (L : List Nat) (hcs : All2 VA cs ls)
     (hL : Sorted L) (hmem : ∀ x, x ∈ L ↔ k ≤ Disj.cnt x ls) (ms1 ms2 : List Disj.Move)
     (hl1 : Disj.legalMoves L ms1) (hl2 : Disj.legalMoves L ms2)
@@ -570,7 +571,7 @@ children paths, danger zones of the children included), `fill_bitset_block`, `co
 default `fill_buffer` in place of the union's own (for which the statement is false) — satisfies the
 refinement contract. `G` is any total score function consistent with the children. -/
 theorem C13_union_score_lawful (hA : Lawful A VA WA) (hscore : ∀ {c l}, VA c l → VA (A.score c).2 l)
-    (g : σ → Nat → Nat) (hG : Inter.Ghost A g) (hg : ∀ c, (A.score c).1 = g c (A.doc c))
+    (g : σ → Nat → Nat) (hG : Inter.Ghost A g) (hg : ∀ {c l}, VA c l → l ≠ [] → (A.score c).1 = g c (A.doc c))
     (G : Nat → Nat) (H : Nat) (hH : 64 ∣ H) (hH0 : 0 < H) (fx : Fix) :
     Lawful (BUnion.dsNF A H fx) (BUnion.VS g G VA H) (BUnion.WS g G VA WA H) :=
   BUnion.lawful_S hA hscore hG hg hH hH0 fx
@@ -581,7 +582,7 @@ it) / fill_bitset_block / default fill_buffer: the observations are the specific
 whenever the cursor is not in a danger zone the union sits on the specification's document and
 `score()` is the sum of the score functions of the children containing it. -/
 theorem C13_union_score_program (hA : Lawful A VA WA) (hscore : ∀ {c l}, VA c l → VA (A.score c).2 l)
-    (g : σ → Nat → Nat) (hG : Inter.Ghost A g) (hg : ∀ c, (A.score c).1 = g c (A.doc c))
+    (g : σ → Nat → Nat) (hG : Inter.Ghost A g) (hg : ∀ {c l}, VA c l → l ≠ [] → (A.score c).1 = g c (A.doc c))
     (H : Nat) (hH : 64 ∣ H) (hH0 : 0 < H) (fx : Fix) (cs : List σ) (ls : List (List Nat)) (U : List Nat)
     (hcs : All2 VA cs ls) (hU : SimpleUnion.IsUnion U ls) (prog : List Op)
     (hl : legalProg ⟨U, none⟩ prog = true) (hnc : ∀ op ∈ prog, op ≠ Op.count) :
@@ -594,10 +595,29 @@ theorem C13_union_score_program (hA : Lawful A VA WA) (hscore : ∀ {c l}, VA c 
                   = BUnion.gsum g cs ls (implFinal (BUnion.dsNF A H fx) (BUnion.build A H true cs) prog).doc)) :=
   BUnion.score_after_program hA hscore hG hg hH hH0 fx hcs hU prog hl hnc
 
+/-- **Composition of the score clause, SUM union.** `Scored C V W g`: what a scoring parent needs from
+a child (it refines the cursor, `score()` does not move it, on a document its score is `g c d` with
+`g c` untouched by the child's methods). Over scored children the buffered union — paired with its
+total score function as ghost data, valid states = `BUnion.VS` — is again a scored child. -/
+theorem C13_scored_union_closed (g : σ → Nat → Nat) (hS : Scored A VA WA g) (H : Nat) (hH : 64 ∣ H)
+    (hH0 : 0 < H) (fx : Fix) :
+    Scored ((BUnion.dsNF A H fx).withGhost (α := Nat → Nat))
+      (fun p l => BUnion.VS g p.2 VA H p.1 l) (fun p t l => BUnion.WS g p.2 VA WA H p.1 t l)
+      (fun p => p.2) :=
+  BUnion.scored hS hH hH0 fx
+
+/-- **Composition of the score clause, Disjunction**: over scored children the minimum-should-match
+disjunction (SumCombiner) is again a scored child -/
+theorem C13_scored_disjunction_closed (g : σ → Nat → Nat) (hS : Scored A VA WA g) :
+    Scored ((Disj.ds A).withGhost (α := Nat → Nat))
+      (fun p l => Disj.VS g p.2 VA p.1 l) (fun p t l => defaultW (Disj.VS g p.2 VA) p.1 t l)
+      (fun p => p.2) :=
+  Disj.scored hS
+
 /-- score of the intersection from `Intersection::new`, after ANY legal mix of `advance` and `seek`:
 `score()` at the current document `d` is the sum of `g c d` over all its children -/
 theorem C13_intersection_score_after_moves (hA : Lawful A VA WA) (g : σ → Nat → Nat)
-    (hG : Inter.Ghost A g) (hg : ∀ c, (A.score c).1 = g c (A.doc c)) (fx : Fix) (dense : Bool)
+    (hG : Inter.Ghost A g) (hg : ∀ {c l}, VA c l → l ≠ [] → (A.score c).1 = g c (A.doc c)) (fx : Fix) (dense : Bool)
     (l r : σ) (os : List σ) (ll lr : List Nat) (los : List (List Nat)) (hL : VA l ll) (hR : VA r lr)
     (hO : All2 VA os los) (ms : List BUnion.Move)
     (hl : BUnion.legalMoves (Inter.Common ll lr los) ms) :
@@ -610,6 +630,27 @@ theorem C13_intersection_score_after_moves (hA : Lawful A VA WA) (g : σ → Nat
   Inter.score_after_moves hA hG hg fx dense hL hR hO ms hl
 
 end combinators
+
+/-- the sorted-vector leaf is a scored child -/
+theorem C13_scored_vec : Scored Vec.ds Vec.V (defaultW Vec.V) (fun c (_ : Nat) => c.score) := Vec.scored
+
+/-- **two levels**: a SUM union of SUM unions of sorted vectors (the inner unions are driven through
+advance / seek / seek_danger by the outer one). After every legal call program on the outer union,
+outside danger zones, `score()` at the current document is the sum over the inner unions containing
+it of their totals, i.e. of the scores of all leaves containing it. No hypothesis but sortedness. -/
+theorem C13_union_of_unions_score (H : Nat) (hH : 64 ∣ H) (hH0 : 0 < H) (fx : Fix)
+    (groups : List (List (List Nat × Nat))) (hs : ∀ grp ∈ groups, ∀ p ∈ grp, Sorted p.1)
+    (Us : List (List Nat)) (hUs : All2 (fun grp U => SimpleUnion.IsUnion U (grp.map (·.1))) groups Us)
+    (U : List Nat) (hU : SimpleUnion.IsUnion U Us) (prog : List Op)
+    (hl : legalProg ⟨U, none⟩ prog = true) (hnc : ∀ op ∈ prog, op ≠ Op.count)
+    (hnd : (specFinal ⟨U, none⟩ prog).danger = none) :
+    let D := BUnion.dsNF ((BUnion.dsNF Vec.ds H fx).withGhost (α := Nat → Nat)) H fx
+    let s := implFinal D (BUnion.build ((BUnion.dsNF Vec.ds H fx).withGhost (α := Nat → Nat)) H true
+      (groups.map (unionChild H))) prog
+    s.doc = Spec.doc (specFinal ⟨U, none⟩ prog).rest
+      ∧ (s.doc < TERMINATED →
+          (D.score s).1 = BUnion.gsum (fun p => p.2) (groups.map (unionChild H)) Us s.doc) :=
+  union_of_unions_score hH hH0 fx groups hs Us hUs U hU prog hl hnc hnd
 
 /-- the SUM union over sorted-vector leaves with constant scores (no hypothesis left but sortedness):
 after any legal mix of `advance` and `seek`, `score()` is the sum of the scores of the leaves
@@ -666,10 +707,11 @@ clause of the SUM buffered union and of Disjunction under any mix of advance / s
 (`C13_union_score_value`, `C13_union_score_path_independent`, `C13_disjunction_score_*`) and of the
 intersection.
 
-OPEN — the DisjunctionMax combiner (oracle-only, not modelled); composition of the SCORE clause over
-whole trees (the score theorems take children whose score is a function of the document that their
-own moves never change; a union or intersection as a child satisfies that only on its valid states,
-so the child interface would have to be relativised to valid states).
+OPEN — the DisjunctionMax combiner (oracle-only, not modelled); composition of the SCORE clause is
+proved for the SUM union and Disjunction (`C13_scored_union_closed`, `C13_scored_disjunction_closed`,
+instance `C13_union_of_unions_score`); the analogous closure for Intersection / RequiredOptional /
+Exclude nodes (their score theorems are per node, over children with a state-independent score
+function) is not done, so there is no score statement yet for arbitrary trees.
 
 Hypothesis kept: the children of an Intersection hold documents with doc + BLOCK_WINDOW ≤ TERMINATED
 (`Small`). It mirrors a precondition of the real default `fill_bitset_block(min_doc, ..)`: with
@@ -838,6 +880,13 @@ example : let prog : List Op := [.seekDanger 70, .seekDanger 129, .doc]
     legalProg ⟨List.range 130, none⟩ prog = true
       ∧ (specFinal ⟨List.range 130, none⟩ prog).danger = none
       ∧ ((BUnion.dsNF Vec.ds 64 {}).score (implFinal (BUnion.dsNF Vec.ds 64 {}) s0 prog)).1 = 7 := by
+  decide +kernel
+example : let H := 64
+    let D := BUnion.dsNF ((BUnion.dsNF Vec.ds H {}).withGhost (α := Nat → Nat)) H {}
+    let s0 := BUnion.build ((BUnion.dsNF Vec.ds H {}).withGhost (α := Nat → Nat)) H true
+      [unionChild H [(List.range 130, 2), ([65, 129], 5)], unionChild H [([65, 200], 3)]]
+    (D.score (implFinal D s0 [.seekDanger 65])).1 = 10 ∧ (implFinal D s0 [.seekDanger 65]).doc = 65
+      ∧ (D.score (implFinal D s0 [.advance, .seek 129])).1 = 7 := by
   decide +kernel
 example : Exclude.ok [[5, 7], [9]] 1 = true ∧ Exclude.ok [[5, 7], [9]] 9 = false := by decide
 example : Vec.V (Vec.init [1, 5, 9] 2) [1, 5, 9] := ⟨rfl, by
